@@ -117,7 +117,42 @@ Directors == {[kind |-> "director", name |-> <<100>>, type |-> ty, retries |-> 5
              \cup {[kind |-> "director", name |-> <<100>>, type |-> 1, retries |-> rt, quorum |-> q, members |-> ms] :
                      rt \in {0, 3}, q \in {0, 50}, ms \in MemberSets}
              \cup {[kind |-> "director", name |-> n, type |-> 1, retries |-> 0, quorum |-> 50, members |-> <<<<98>>>>] : n \in Names}
-Cases == Dicts \cup Acls \cup Backends \cup Directors
+(***************************************************************************)
+(* Resource SETS: several dictionaries and ACLs in one service, and two    *)
+(* services in one Terraform plan whose resources have equal or different  *)
+(* names.  Contents reach a declaration through a join: the API client     *)
+(* fetches the items / entries of every dictionary / ACL with one          *)
+(* sub-request per resource id (answered in any order: `late` is the       *)
+(* sub-request answered last), a plan holds them as separate resources     *)
+(* keyed by (service id, name).  Requirement: every declaration carries    *)
+(* exactly ITS resource's items / entries - per service.                   *)
+(***************************************************************************)
+I0 == <<>>
+IA == <<[key |-> <<107, 49>>, value |-> <<118, 49>>]>>                                                  \* k1: v1
+IB == <<[key |-> <<107, 50>>, value |-> <<118, DQ>>], [key |-> <<107, 51>>, value |-> <<PC, 52, 52>>]>>  \* k2: v"  k3: %44
+E0 == <<>>
+EA == <<[ip |-> <<49, 48, 46, 48, 46, 48, 46, 48>>, negated |-> FALSE, subnet |-> 8, comment |-> <<>>]>>
+EB == <<[ip |-> <<49, 48, 46, 48, 46, 48, 46, 48>>, negated |-> TRUE, subnet |-> 16, comment |-> <<>>],
+        [ip |-> <<50, 48, 48, 49, 58, 100, 98, 56, 58, 58, 49>>, negated |-> FALSE, subnet |-> -1, comment |-> <<122, NL, 122>>]>>
+MkDict(nm, its) == [kind |-> "dict", name |-> nm, items |-> its]
+MkAcl(nm, es) == [kind |-> "acl", name |-> nm, entries |-> es]
+Svc(id, ds, as) == [id |-> id, dicts |-> ds, acls |-> as]
+ContentPairs == {<<I0, IA, E0, EA>>, <<IA, I0, EA, E0>>, <<IA, IB, EA, EB>>, <<IB, IA, EB, EA>>, <<IA, IA, EA, EA>>}
+Multis ==
+  \* one service, two dictionaries and two ACLs
+  {[kind |-> "multi", late |-> l,
+    services |-> <<Svc("s1", <<MkDict(<<100>>, c[1]), MkDict(<<101>>, c[2])>>, <<MkAcl(<<97>>, c[3]), MkAcl(<<98>>, c[4])>>)>>] :
+     c \in ContentPairs, l \in {1, 2}}
+  \* two services in one plan, resource names equal or different
+  \cup {[kind |-> "multi", late |-> 1,
+         services |-> <<Svc("s1", <<MkDict(<<100>>, c[1])>>, <<MkAcl(<<97>>, c[3])>>),
+                        Svc("s2", <<MkDict(n[1], c[2])>>, <<MkAcl(n[2], c[4])>>)>>] :
+          c \in ContentPairs, n \in {<<<<100>>, <<97>>>>, <<<<101>>, <<98>>>>}}
+  \* two services, two resources each, names crossed
+  \cup {[kind |-> "multi", late |-> l,
+         services |-> <<Svc("s1", <<MkDict(<<100>>, IA), MkDict(<<101>>, I0)>>, <<MkAcl(<<97>>, EA), MkAcl(<<98>>, EB)>>),
+                        Svc("s2", <<MkDict(<<101>>, IB), MkDict(<<100>>, IB)>>, <<MkAcl(<<98>>, E0), MkAcl(<<97>>, EB)>>)>>] : l \in {1, 2}}
+Cases == Dicts \cup Acls \cup Backends \cup Directors \cup Multis
 
 S(str) == [lit |-> str]          \* a literal piece of template text (the harness concatenates pieces)
 V(cs) == [cs |-> cs]             \* a variable piece, code points
@@ -150,8 +185,12 @@ RenderDirector(d) ==
   \o <<S("\n\t.quorum = "), V(Num(d.quorum)), S("%;")>>
   \o Flat([i \in 1..Len(d.members) |-> <<S("\n\t{ .backend = "), V(BackendRef(d.members[i])), S("; .weight = 1; }")>>])
   \o <<S("\n}\n")>>
+\* mechanism of the join: the contents a declaration gets are those of the resource with the same service id and
+\* name / resource id, whatever the order of the answers - so a service is rendered from its own resources
+RenderService(sv) == Flat([i \in 1..Len(sv.dicts) |-> RenderDict(sv.dicts[i])]) \o Flat([i \in 1..Len(sv.acls) |-> RenderAcl(sv.acls[i])])
 Render(c) == CASE c.kind = "dict" -> RenderDict(c) [] c.kind = "acl" -> RenderAcl(c)
                [] c.kind = "backend" -> RenderBackend(c) [] c.kind = "director" -> RenderDirector(c)
+               [] c.kind = "multi" -> RenderService(c.services[1])
 
 (* what the parser reads back (mechanism prediction) *)
 ReadDict(d) ==
@@ -173,8 +212,12 @@ ReadDirector(d) ==
 (***************************************************************************)
 (* requirement                                                             *)
 (***************************************************************************)
+RECURSIVE Faithful(_)
 Faithful(c) ==
-  CASE c.kind = "dict" -> LET r == ReadDict(c) IN
+  CASE c.kind = "multi" -> \A i \in 1..Len(c.services) :
+                             /\ \A j \in 1..Len(c.services[i].dicts) : Faithful(c.services[i].dicts[j])
+                             /\ \A j \in 1..Len(c.services[i].acls) : Faithful(c.services[i].acls[j])
+    [] c.kind = "dict" -> LET r == ReadDict(c) IN
          r.ok /\ \A i \in 1..Len(c.items) : r.items[i].key = c.items[i].key /\ r.items[i].value = c.items[i].value
     [] c.kind = "acl" -> LET r == ReadAcl(c) IN
          r.ok /\ \A i \in 1..Len(c.entries) : r.entries[i].ip = c.entries[i].ip /\ r.entries[i].negated = c.entries[i].negated
@@ -196,5 +239,8 @@ AllFaithful == Faithful(case)
 
 ReadBack(c) == CASE c.kind = "dict" -> ReadDict(c) [] c.kind = "acl" -> ReadAcl(c)
                  [] c.kind = "backend" -> ReadBackend(c) [] c.kind = "director" -> ReadDirector(c)
+                 [] c.kind = "multi" -> [ok |-> \A i \in 1..Len(c.services) :
+                                                  /\ \A j \in 1..Len(c.services[i].dicts) : ReadDict(c.services[i].dicts[j]).ok
+                                                  /\ \A j \in 1..Len(c.services[i].acls) : ReadAcl(c.services[i].acls[j]).ok]
 EmitInv == PrintT(<<"BEHAVIOUR", ToJson([res |-> case, pieces |-> Render(case), read |-> ReadBack(case), faithful |-> Faithful(case)])>>)
 =============================================================================
